@@ -1469,6 +1469,18 @@ class DynGraph(nx.Graph):
         # @todo: implement (page 8, Latapy)
         pass
 
+    def clear(self):
+        """Remove all nodes and interactions, together with the interaction stream and the snapshot index."""
+        super(self.__class__, self).clear()
+        self.time_to_edge = defaultdict(int)
+        self.snapshots = {}
+
+    def clear_edges(self):
+        """Remove all interactions (nodes are kept), together with the interaction stream and the snapshot index."""
+        super(self.__class__, self).clear_edges()
+        self.time_to_edge = defaultdict(int)
+        self.snapshots = {}
+
     @not_implemented()
     def remove_edge(self, u, v):
         pass
